@@ -325,9 +325,9 @@ def plan(tier):
         return ([{"name": "tree%d" % i, "type": "tree", "n": 900, "steps": 25} for i in range(7)] +
                 [{"name": "value%d" % i, "type": "value", "n": 900, "steps": 14} for i in range(4)] +
                 [{"name": "scen%d" % i, "type": "scen", "n": 60, "which": SCENARIOS[i::5]} for i in range(5)])
-    return ([{"name": "tree%d" % i, "type": "tree", "n": 4000, "steps": 50} for i in range(7)] +
-            [{"name": "value%d" % i, "type": "value", "n": 4000, "steps": 24} for i in range(4)] +
-            [{"name": "scen%d" % i, "type": "scen", "n": 500, "which": SCENARIOS[i::5]} for i in range(5)])
+    return ([{"name": "tree%d" % i, "type": "tree", "n": 20000, "steps": 60} for i in range(7)] +
+            [{"name": "value%d" % i, "type": "value", "n": 20000, "steps": 24} for i in range(4)] +
+            [{"name": "scen%d" % i, "type": "scen", "n": 2500, "which": SCENARIOS[i::5]} for i in range(5)])
 
 
 def run(shard, seed, ctx):
